@@ -181,8 +181,22 @@ def coq_make(targets, timeout=1500, jobs=16):
             r = run(["coq_makefile", "-f", "_CoqProject", "-o", "Makefile"], cwd=d, timeout=120)
             if r.returncode != 0:
                 return False, "coq_makefile failed: " + r.stderr
-        r = run(["bash", "-c", "ulimit -v %d; exec make -k -j%d TIMED=1 %s" % (COQ_MEM_KB, jobs, " ".join(targets))],
-                cwd=d, timeout=timeout)
+        cmd = ["bash", "-c", "ulimit -v %d; exec make -k -j%d TIMED=1 %s" % (COQ_MEM_KB, jobs, " ".join(targets))]
+        r = run(cmd, cwd=d, timeout=timeout)
+        # a .vo built against an older coq/Gen (regenerated in between by another process) is stale, not wrong:
+        # remove it and let make rebuild it and its dependents (bounded retries)
+        for _ in range(4):
+            if r.returncode == 0:
+                break
+            stale = set(re.findall(r"Compiled library \S+ \(in file ([^)]+\.vo)\) makes inconsistent assumptions", r.stdout + r.stderr))
+            if not stale:
+                break
+            for f in stale:
+                try:
+                    os.remove(f)
+                except OSError:
+                    pass
+            r = run(cmd, cwd=d, timeout=timeout)
         return r.returncode == 0, r.stdout + r.stderr
 
 
